@@ -358,7 +358,8 @@ theorem slots_sum (es : List Entry) :
 
 theorem toastPage_wf (es : List Entry) (hf : pageFits es) (he : ∀ e ∈ es, e.WF) : (toastPage es).WF := by
   unfold pageFits at hf
-  refine ⟨by simp [toastPage], by simp [toastPage], by simp [toastPage], by simp [toastPage], by simp [toastPage], ?_, ?_, ?_⟩
+  refine ⟨by simp [toastPage], by simp [toastPage], by simp [toastPage], by simp [toastPage], by simp [toastPage], ?_, ?_, ?_,
+    normalSlots_nodup_of_range _ es.length rfl⟩
   · intro l hl
     simp only [toastPage, List.mem_map, List.mem_range] at hl
     obtain ⟨k, hk, rfl⟩ := hl
